@@ -72,6 +72,11 @@ def specs():
             return base
         out.append((f, d, b))
 
+        # a race file written before transform metrics existed has none of the four keys (GlobalStats then reads them as None, not [])
+        def b_legacy(v, b=b):
+            return {} if v is None else b(v)
+        out.append((f + "@race-file-without-transform-keys-when-absent", d, b_legacy))
+
     def op(metric, key, v):
         m = {"task": "t1", "operation": "op", "throughput": {"min": None, "mean": None, "median": None, "max": None, "unit": "docs/s"},
              "latency": {}, "service_time": {}, "processing_time": {}, "error_rate": None, "duration": 1}
@@ -144,11 +149,17 @@ def table_row(sl):
         return out
 
     r._line = spy
-    with shadowed(reporter, ("round",)):
-        rich = r._metrics_table(B, C, plain=False)
-        plain = r._metrics_table(B, C, plain=True)
-        swapped = r._metrics_table(C, B, plain=False)
-        selfcmp = r._metrics_table(B, B, plain=False)
+    try:
+        with shadowed(reporter, ("round",)):
+            rich = r._metrics_table(B, C, plain=False)
+            plain = r._metrics_table(B, C, plain=True)
+            swapped = r._metrics_table(C, B, plain=False)
+            selfcmp = r._metrics_table(B, B, plain=False)
+    except Exception as e:  # noqa: BLE001 - any two stored race results can be compared, whichever subset of metrics each one carries
+        core.note("metric", label)
+        core.note("comparison raised", repr(e))
+        observe("any two stored race results can be compared in both orders (metrics missing on one side are skipped)", False)
+        return
     core.note("metric", label)
     core.note("rows", [[strip(x) if isinstance(x, str) else "<num>" for x in row] for row in rich])
     core.trace("rows", len(rich))
